@@ -52,7 +52,7 @@ impl Check for C01 {
             Tier::Thorough => vec![("direct", 600_000, 600)],
         }
     }
-    fn extra(&self, _tier: Tier, _st: &mut crate::runner::Stats) -> Result<serde_json::Value, Failure> {
+    fn extra(&self, _tier: Tier, _st: &mut crate::runner::Stats, _known: &dyn Fn(&str) -> bool, _threads: usize) -> Result<serde_json::Value, Failure> {
         match crate::selftest::check_oracle() {
             Ok(n) => Ok(serde_json::json!({"oracle_selftest_evaluations": n})),
             Err(e) => fail("oracle-selftest", e),
